@@ -18,8 +18,8 @@ import (
 	"github.com/storacha/go-ucanto/client"
 	"github.com/storacha/go-ucanto/core/dag/blockstore"
 	"github.com/storacha/go-ucanto/core/invocation"
-	"github.com/storacha/go-ucanto/core/message"
 	"github.com/storacha/go-ucanto/core/ipld"
+	"github.com/storacha/go-ucanto/core/message"
 	"github.com/storacha/go-ucanto/core/receipt/fx"
 	"github.com/storacha/go-ucanto/core/result/ok"
 	"github.com/storacha/go-ucanto/principal"
@@ -189,6 +189,16 @@ func decodeReceipt(b []byte) (class, ran, iss string, okk bool) {
 	return "?", ran, iss, false
 }
 
+// once a few requests were never answered the rest of the run does not wait long for the others
+var hangs atomic.Int32
+
+func hangTimeout() time.Duration {
+	if hangs.Load() >= 2 {
+		return 2 * time.Second
+	}
+	return 30 * time.Second
+}
+
 // Run sends the batch through client.Execute to the in-process server (the server is the channel).
 func (b *Batch) Run(channel func(srv server.ServerView) transport.Channel) *BatchObs {
 	obs := &BatchObs{}
@@ -334,7 +344,25 @@ func (b *Batch) runOn(ch transport.Channel, names []string, obs *BatchObs) {
 	for _, n := range names {
 		invs = append(invs, b.W.built[n].Dlg)
 	}
-	resp, err := client.Execute(invs, conn)
+	// a request that is never answered must not hang the harness: it is reported as its own outcome
+	type execResult struct {
+		resp client.ExecutionResponse
+		err  error
+	}
+	resc := make(chan execResult, 1)
+	go func() {
+		r, e := client.Execute(invs, conn)
+		resc <- execResult{r, e}
+	}()
+	var resp client.ExecutionResponse
+	select {
+	case er := <-resc:
+		resp, err = er.resp, er.err
+	case <-time.After(hangTimeout()):
+		hangs.Add(1)
+		obs.ExecErr = "hang: the server did not answer in time"
+		return
+	}
 	if err != nil {
 		obs.ExecErr = err.Error()
 		return
@@ -474,7 +502,13 @@ func writeBatchCases(dir, prefix string, cases []string, shards int) error {
 // randomBatch: k invocations (chains with defects), several services, shared principals and context
 func randomBatch(r *rand.Rand, id int, seed int64, maxInv int, dup bool) *Batch {
 	cast := newCast(seed*2654435761 + int64(id))
-	service := cast.Ed("service")
+	var service *Prin
+	if id%4 == 3 {
+		// the server is identified by a did:web whose key is wrapped: receipts must name THAT identity
+		service = cast.Wrapped("service", "did:web:service.example", cast.Ed("servicekey"))
+	} else {
+		service = cast.Ed("service")
+	}
 	cw := &World{ID: id, Kind: "batch", Cast: cast, Can: "store/add", Ctx: baseCtx(service)}
 	b := &Batch{ID: id, W: cw, Handlers: map[string]string{}}
 	for _, a := range abilities {
